@@ -315,6 +315,55 @@ class VmdkSparse(Parser):
 
 
 # ------------------------------------------------------------------------------------------------ Hyper-V
+class VmdkDelta(Parser):
+    """A delta disk next to its parent: a text descriptor + a hosted sparse extent, or one monolithic sparse file with an embedded
+    descriptor.  A named extent file or the hinted parent that cannot be found is a refusal, not an empty disk."""
+    name = "vmdk-delta"
+
+    def __init__(self, work):
+        self.work = work
+
+    def gates(self):
+        return {"extent_present": [("no-extent", who, form) for who in ("child", "parent") for form in ("descriptor",)] + [("no-extent", "misnamed", "descriptor")],
+                "parent_present": [("no-parent", form, hint) for form in ("descriptor", "monolithic") for hint in ("parent.vmdk", "C:\\vms\\base vm\\parent.vmdk", "../elsewhere/parent.vmdk")]}
+
+    def open(self, variants):
+        from dissect.hypervisor.disk.vmdk import VMDK
+        d = tempfile.mkdtemp(prefix="c12-vmdkd-", dir=self.work)
+        try:
+            form, hint = "descriptor", "parent.vmdk"
+            for v in variants.values():
+                if v[0] == "no-parent":
+                    form, hint = v[1], v[2]
+            pvf, _ = enc_vmdk.build_hosted([("D", 1)], [True], capacity=8, grain=8, gtes=4, file_id=1)
+            cvf_kw = dict(capacity=8, grain=8, gtes=4, file_id=2)
+            # parent: descriptor + extent
+            with open(os.path.join(d, "parent.vmdk"), "w") as f:
+                f.write(enc_vmdk.descriptor_text(['RW 8 SPARSE "parent-s001.vmdk"'], cid="1234abcd"))
+            pvf.materialise(os.path.join(d, "parent-s001.vmdk"))
+            if form == "descriptor":
+                with open(os.path.join(d, "child.vmdk"), "w") as f:
+                    f.write(enc_vmdk.descriptor_text(['RW 8 SPARSE "child-s001.vmdk"'], parent_cid="1234abcd", parent_hint=hint))
+                cvf, _ = enc_vmdk.build_hosted([("U", 0)], [True], **cvf_kw)
+                cvf.materialise(os.path.join(d, "child-s001.vmdk"))
+            else:
+                cvf, _ = enc_vmdk.build_hosted([("U", 0)], [True], desc=enc_vmdk.descriptor_text(['RW 8 SPARSE "child.vmdk"'], parent_cid="1234abcd", parent_hint=hint), **cvf_kw)
+                cvf.materialise(os.path.join(d, "child.vmdk"))
+            for v in variants.values():
+                if v[0] == "no-parent":
+                    os.remove(os.path.join(d, "parent.vmdk"))
+                elif v[0] == "no-extent":
+                    if v[1] == "misnamed":
+                        os.rename(os.path.join(d, "child-s001.vmdk"), os.path.join(d, "child-s001.vmdk.bak"))
+                    else:
+                        os.remove(os.path.join(d, f"{v[1]}-s001.vmdk"))
+            got = VMDK(Path(d) / "child.vmdk").read(4096)
+            if got[:8] == bytes(8) or len(got) != 4096:
+                raise AssertionError("the parent's data is not served")
+        finally:
+            shutil.rmtree(d, ignore_errors=True)
+
+
 class HyperV(Parser):
     name = "hyperv"
 
@@ -403,10 +452,22 @@ class EnvelopeP(Parser):
                 b[508:512] = struct.pack("<I", v[1])
             elif v[0] == "aead":
                 b[-4:] = struct.pack("<I", v[1])
-        e = Envelope(io.BytesIO(bytes(b)))
-        # accepted: it must also be able to serve the payload (header alterations are authenticated)
-        if not variants and e.decrypt(self.KEY) != b"payload":
-            raise AssertionError("payload")
+        # with and without tag verification (the `verify` argument only concerns the authentication tag, not what is supported)
+        errs = []
+        for verify in (True, False):
+            try:
+                e = Envelope(io.BytesIO(bytes(b)), verify=verify)
+                # accepted: it must also be able to serve the payload (header alterations are authenticated)
+                if not variants and e.decrypt(self.KEY) != b"payload":
+                    raise AssertionError("payload")
+            except AssertionError:
+                raise
+            except Exception as ex:  # noqa: BLE001
+                errs.append(ex)
+        if len(errs) == 1:
+            raise AssertionError(f"refused with one value of verify only: {errs[0]!r}")
+        if errs:
+            raise errs[0]
 
 
 class KeystoreP(Parser):
@@ -436,8 +497,11 @@ class KeysafeP(Parser):
                 "locator_kind": [("kind", k) for k in ("rawkey", "ldap", "script", "role", "fqid", "phrase2", "Phrase", "")]
                                 + [("kind-in-second-pair", k, where) for k in ("rawkey", "ldap", "fqid", "script") for where in ("before", "after")],
                 # algorithm identifiers of a phrase locator / pair that this reader does not implement
-                "pass2key": [("alg", "PBKDF2-HMAC-SHA-1", x) for x in ("PBKDF2-HMAC-MD5", "PBKDF2-HMAC-SHA-512", "pbkdf2-hmac-sha-1", "SCRYPT", "", "PBKDF2-HMAC-SHA-1-128")],
-                "phrase_cipher": [("alg", "AES-256", x) for x in ("XTS-AES-256", "DES3-192", "aes-256", "AES-512", "AES-CTR-128", "CAMELLIA-256", "", "AES-64", "AES-256-GCM")],
+                # (also in the first pair of a list whose second pair is entirely regular: the list is tried in order)
+                "pass2key": [("alg", "PBKDF2-HMAC-SHA-1", x) for x in ("PBKDF2-HMAC-MD5", "PBKDF2-HMAC-SHA-512", "pbkdf2-hmac-sha-1", "SCRYPT", "", "PBKDF2-HMAC-SHA-1-128")]
+                            + [("alg-first", "PBKDF2-HMAC-SHA-1", x) for x in ("PBKDF2-HMAC-MD5", "SCRYPT", "")],
+                "phrase_cipher": [("alg", "AES-256", x) for x in ("XTS-AES-256", "DES3-192", "aes-256", "AES-512", "AES-CTR-128", "CAMELLIA-256", "", "AES-64", "AES-256-GCM")]
+                                 + [("alg-first", "AES-256", x) for x in ("XTS-AES-256", "DES3-192", "AES-512", "")],
                 "hmac": [("alg", "HMAC-SHA-1", x) for x in ("HMAC-MD5", "HMAC-SHA-512", "hmac-sha-1", "", "HMAC-SHA-1-96", "NONE")]}
 
     def open(self, variants):
@@ -453,11 +517,15 @@ class KeysafeP(Parser):
                 # a list of two pairs: one wrapped under a locator kind this reader does not implement, one valid phrase pair
                 other = pt.replace("pair/(phrase/", f"pair/({v[1]}/")
                 ks = enc_vmx.keysafe([other, pt] if v[2] == "before" else [pt, other])
-            elif v[0] == "alg":
+            elif v[0] in ("alg", "alg-first"):
                 # the names appear percent-escaped (twice inside the phrase locator, once as the pair's MAC)
                 once, twice = enc_vmx.esc(v[1]), enc_vmx.esc(enc_vmx.esc(v[1]))
                 assert once in ks or twice in ks, (v, ks[:200])
-                ks = ks.replace(twice, enc_vmx.esc(enc_vmx.esc(v[2]))).replace(once, enc_vmx.esc(v[2]))
+                if v[0] == "alg":
+                    ks = ks.replace(twice, enc_vmx.esc(enc_vmx.esc(v[2]))).replace(once, enc_vmx.esc(v[2]))
+                else:
+                    # the altered pair first, the regular pair second
+                    ks = enc_vmx.keysafe([pt.replace(twice, enc_vmx.esc(enc_vmx.esc(v[2]))).replace(once, enc_vmx.esc(v[2])), pt])
         cfg = 'a = "1"\n'
         text = enc_vmx.vmx_text({"x": "y"}, ks, enc_vmx.blob(bytes(32), cfg.encode(), "HMAC-SHA-1", bytes(16)))
         v = VMX.parse(text)
@@ -482,7 +550,7 @@ def run(ctx):
     work = tempfile.mkdtemp(prefix="verif-c12-")
     rng = random.Random(ctx.seed + 12)
     try:
-        parsers = {p.name: p for p in (Qcow2(), Vhdx(work), Vdi(), Hds(), Hdd(work), VmdkSparse(), HyperV(), EnvelopeP(), KeystoreP(), KeysafeP())}
+        parsers = {p.name: p for p in (Qcow2(), Vhdx(work), Vdi(), Hds(), Hdd(work), VmdkSparse(), VmdkDelta(work), HyperV(), EnvelopeP(), KeystoreP(), KeysafeP())}
         gate_names = {}
         seen = set()
         for st in sts:
@@ -524,6 +592,7 @@ _ORDER = {
     "vhdx": ["file_identifier", "header_signature", "region_signature_1", "region_signature_2", "metadata_region", "metadata_signature",
              "required_item", "unknown_required_item", "locator_type", "parent_resolved", "bat_region"],
     "vdi": ["signature"], "hds": ["signature"], "hdd": ["descriptor_present", "image_type", "parent_image_type"], "vmdk-sparse": ["magic", "footer_magic"],
+    "vmdk-delta": ["extent_present", "parent_present"],
     "hyperv": ["header_signature", "version", "replay_log_signature", "object_table_signature", "chained_object_table_signature", "key_table_signature",
                "other_key_table_signature"],
     "envelope": ["magic", "version", "attr_keyinfo", "attr_ciphername", "attr_keyhash", "cipher", "aead_footer_version"],
